@@ -150,6 +150,9 @@ func loadWorld(repo string, verifDir string) (*World, error) {
 	for _, n := range []string{"Ph", "Dp", "F1", "F2", "F3", "F4", "F5", "F6"} {
 		jf = append(jf, types.NewField(token.NoPos, gp, n, tMath, false))
 	}
+	htn := types.NewTypeName(token.NoPos, gp, "Hash", nil)
+	types.NewNamed(htn, types.NewStruct([]*types.Var{types.NewField(token.NoPos, gp, "W", types.NewSlice(types.Typ[types.Uint8]), false)}, nil), nil)
+	gp.Scope().Insert(htn)
 	jtn := types.NewTypeName(token.NoPos, gp, "JSON", nil)
 	types.NewNamed(jtn, types.NewStruct(jf, nil), nil)
 	gp.Scope().Insert(jtn)
